@@ -80,6 +80,21 @@ Theorem c18_lsub_plain_exact : forall (subs : list str) (reference pattern n : s
 Proof. exact lsub_plain_exact. Qed.
 Print Assumptions c18_lsub_plain_exact.
 
+(** role mailboxes in LIST and LSUB: the names answered below "Roles" are
+    exactly the paths Roles/<address>/<mailbox>, Roles/<address> and Roles of
+    the assigned role stores that match reference+pattern *)
+Theorem c18_role_names_exact : forall (roles : list (str * list str)) (reference pattern n : str),
+  (forall m, In m (role_paths roles) -> to_upper m = INBOX -> m = INBOX) ->
+  (In n (role_names roles reference pattern) <->
+   In n (role_paths roles) /\ has_prefix n ROLES = true /\
+   MatchesI (build_canonical_pattern reference pattern) n).
+Proof. exact role_names_exact. Qed.
+Print Assumptions c18_role_names_exact.
+
+Example c18_role_names_example :
+  role_names [(S_ "p@x", [S_ "INBOX"; S_ "Projects/2024"])] (S_ "Roles/p@x/") (S_ "%") = [S_ "Roles/p@x/INBOX"].
+Proof. vm_compute. reflexivity. Qed.
+
 Example c18_lsub_example :
   lsub_names [S_ "Foo/Bar/Baz"; S_ "Foo/Qux"] (S_ "Foo/") (S_ "%") = ([S_ "Foo/Bar"], [S_ "Foo/Qux"]).
 Proof. vm_compute. reflexivity. Qed.
